@@ -529,11 +529,15 @@ def main():
         "compilations": len(results), "compilations_skipped_c13": c13_skipped, "compilations_crashed_elsewhere": len(crashes), "source_ops_judged": len(judge2_meta),
         "placement_disagreements": len(placement), "placement_known": known_place,
         "cpu_ops_compared_with_source": len(same_reqs), "cpu_ops_changed": len(changed),
+        "compilations_covered_in_lean": len(creqs), "compilations_with_structure_problems": len(structure),
+        "source_operator_fates": {k[5:]: v for k, v in ck.counters.items() if k.startswith("fate_")},
+        "neighbour_networks": dict(collections.Counter(getattr(n_, "neighbour", None) or "none" for _l, n_ in nets)),
         "operators_seen_by_checkers_in_situ": seen_ops, "in_situ_disagreements": len(insitu_dis),
         "unreached_branches": {"supported_constraints_never_failing_in_stubs": sup_never, "semantic_constraints_never_failing_in_stubs": sem_never},
         "exhaustive": False,
     }, assumptions=["Vela's tflite_reader is the translation source operator -> internal operator for the pipeline-level prediction",
-                    "a source operator 'stays on the CPU' iff the output file holds an operator with the same builtin code and the same output tensor names",
+                    "a source operator 'stays on the CPU' iff exactly one non-Ethos-U operator of the output file produces tensors with the names of its results "
+                    "(then compared verbatim); it is 'on the NPU' iff none does and it lies in the backward slice of an Ethos-U operator (names of results down to names of operands)",
                     "compilations that die with a non-Vela exception are C13's subject and are skipped (counted)"])
 
 
@@ -575,17 +579,34 @@ def replay(ck, path):
         if r.get("status") == "ok" and r.get("out_model") is not None:
             cpu_ops, n_npu = observed_cpu_ops(fbwalk.parse(r["out_model"]))
             print(f"  output file: {len(cpu_ops)} CPU operators {cpu_ops}, {n_npu} Ethos-U operators")
+            n = r.get("n_src_ops", 0)
+            pred, predc, info = ["-"] * n, ["-"] * n, {}
             for s in r.get("src", []):
                 doc, place, docc = ck.model([f"c16 doc {s['desc']}", f"c16 place {s['desc']}", f"c16 docc {s['desc']}"], parallel=False)
-                print(f"  {s['type']} -> {s['out_names']}: report says {doc} | model {place} | committed document says {docc}")
-                from ethosu.vela.operation import Op as VOp
-                from ethosu.vela.tflite_mapping import builtin_operator_inv_map
-                e = builtin_operator_inv_map.get(getattr(VOp, s["type"]))
-                on_cpu = any(e is not None and c == int(e[0]) and set(names) == set(s["out_names"]) for c, names in cpu_ops)
-                obs = "cpu" if on_cpu else "npu"
-                if ck.model([f"c16judge {doc.split(' ')[0]} {obs}"], parallel=False)[0] != "1":
-                    print(f"    observed {obs}: DISAGREES with the report")
-                    bad = True
+                if 0 <= s["op_index"] < n:
+                    pred[s["op_index"]], predc[s["op_index"]] = doc.split(" ")[0], docc.split(" ")[0]
+                    info[s["op_index"]] = (s, doc, place, docc)
+            ans = ck.model([f"c16cover pred={','.join(pred)} predc={','.join(predc)} " + r["graph_toks"]], parallel=False)[0]
+            head = ans.split(" ", 6)
+            print("  Spec/Placement.lean:", " ".join(head[:6])[:600])
+            if len(head) > 6:
+                for pr in head[6].split(" ~ "):
+                    print("    problem:", pr[:400])
+            if head[0] == "bad":
+                bad = True
+            f = {t.split("=", 1)[0]: t.split("=", 1)[1] for t in head[1:6] if "=" in t}
+            fates, judged = f.get("fates", "").split(","), f.get("judged", "").split(",")
+            for jx in range(n):
+                s, doc, place, docc = info.get(jx, ({"type": "?", "out_names": []}, "-", "-", "-"))
+                ok = jx < len(judged) and judged[jx] == "1"
+                print(f"  source operator {jx} {s['type']} -> {s['out_names']}: report says {doc} | model {place} | committed document says {docc} | "
+                      f"fate in the output file: {fates[jx] if jx < len(fates) else '?'}" + ("" if ok else "   <-- DISAGREES / not accounted for exactly once"))
+                if not ok and head[0] != "pre":
+                    key = placement_key(s, doc, place, fates[jx] if jx < len(fates) else "?")
+                    if key is None or ck.finding_key_known(key) is None:
+                        bad = True
+                    else:
+                        print(f"    (known finding {key})")
             outs_rec = [x for x in c16_lib.op_records(r["out_model"]) if not (x["code"] == 32 and x["custom"] == "ethos-u")]
             for o in outs_rec:
                 for so in [x for x in r.get("src_records", []) if x["code"] == o["code"] and x["outs"] == o["outs"]]:
